@@ -9,6 +9,7 @@ From M Require NumSyntax.
 From M Require ArrayRoundTrip.
 From M Require Tie.
 From M Require ParseLocal.
+From M Require ArrayRoundTrip64.
 From M Require DecSpec.
 From M Require Framing2.
 From M Require GFmt.
@@ -220,4 +221,15 @@ Theorem C04_strtod_exact_app_t :
 Proof. exact (@ParseLocal.strtod_exact_app_t). Qed.
 End T_strtod_exact_app_t.
 Definition C04_strtod_exact_app_t := @T_strtod_exact_app_t.C04_strtod_exact_app_t.
+
+Module T_read_uint_item64. Import ArrayRoundTrip64. Local Open Scope bool_scope. Local Open Scope Z_scope.
+Import LexModel LexBounds DecSpec MoreSpecs NumList SimpleSpecs ListWs ParserModel ParamList. Local Open Scope Z_scope.
+Local Open Scope Z_scope.
+Theorem C04_read_uint_item64 :
+  forall items k c m i,
+  Forall uint_item64 items -> nth_error items k = Some i -> at_item c items k -> tail_ok64 c ->
+  exists c', param_int c 64 false m = (c', true, value_of64 i) /\ at_item c' items (S k) /\ tail_ok64 c' /\ c' = upd_in c (Z.of_nat (S k)) (item_off items (S k) - 1).
+Proof. exact (@ArrayRoundTrip64.read_uint_item64). Qed.
+End T_read_uint_item64.
+Definition C04_read_uint_item64 := @T_read_uint_item64.C04_read_uint_item64.
 
